@@ -34,6 +34,22 @@ FILES = {
 }
 
 
+ASSUMPTION_TEXT = {
+    "A-antlr-lexer": "the runtime lexer is maximal munch over the ATN, first rule wins ties, skip drops the token",
+    "A-antlr-tree": "the parser accepts exactly the ATN's language and the tree it builds is a derivation tree of it (a child context "
+                    "is attached to its parent when the sub-rule is entered)",
+    "A-antlr-prec": "precedence climbing with the extracted table yields the stated binding",
+    "A-antlr-predict": "a rule reached through a decision is entered only if the lookahead agrees with it up to the point where the "
+                       "alternatives diverge",
+    "A-antlr-error": "the first error is reported at the first token with no viable continuation, at the parser state set by the last "
+                     "`self.state = n`, with the innermost open rule's context; messages render expected-token sets as DefaultErrorStrategy does",
+    "A-layout-tree": "the content children of the chosen derivation do not depend on where the NEWLINE tokens are attached",
+    "A-cpython-literals": "int()/float()/complex() accept the regular sets of decimal literals specified in atnk/literals.py and return "
+                          "their decimal value (correctly rounded for floats)",
+    "A-cpython-format": "repr/str of ints, finite floats and complex numbers lie in the regular sets stated in atnk/canon_lex.py",
+}
+
+
 class Ctx(object):
     def __init__(self, repo=None, tier="quick"):
         self.repo = repo or common.REPO
